@@ -22,6 +22,13 @@ type qp3Case struct {
 	LwMode int
 	LwK    int
 	Seed   uint64
+	// LowRank > 0 replaces the matrix class by "low rank + tiny noise":
+	// A = X*Y + 10^-NoiseExp * sqrt(rank) * E with X m x rank, Y rank x n and E
+	// Gaussian. The partial column norms of such a matrix collapse inside a
+	// Dlaqps panel, which makes Dlaqps return early (fewer columns factorized
+	// than requested) and forces norm recomputation.
+	LowRank  int
+	NoiseExp int
 }
 
 func checkQP3(c qp3Case) *vk.Failure {
@@ -29,6 +36,20 @@ func checkQP3(c qp3Case) *vk.Failure {
 	k := min(m, n)
 	r := vk.NewSplitMix(c.Seed)
 	a := genGeneral(c.Class, m, n, r)
+	className := clsNames[c.Class]
+	rank, noiseFro := 0, 0.0
+	if c.LowRank > 0 && k > 0 {
+		rank = min(c.LowRank, k)
+		x, y := genGeneral(clsGauss, m, rank, r), genGeneral(clsGauss, rank, n, r)
+		a = mulP(x, y)
+		sc := math.Pow(10, -float64(c.NoiseExp)) * math.Sqrt(float64(rank))
+		for i := range a.d {
+			e := sc * r.Norm()
+			a.d[i] += e
+			noiseFro = math.Hypot(noiseFro, e)
+		}
+		className = "lowrank+noise"
+	}
 	lda := max(1, n) + c.PadA
 	pre, post, trim := padFrom(r)
 	// requested leading columns
@@ -52,14 +73,17 @@ func checkQP3(c qp3Case) *vk.Failure {
 	}
 	free := k - min(k, nfxd)
 	blocked := free > nxQR
-	vk.Class("qp3:class=" + clsNames[c.Class])
+	vk.Class("qp3:class=" + className)
 	vk.Class("qp3:shape=" + shapeClass(m, n))
 	vk.Class(fmt.Sprintf("qp3:fixed=%d", c.Fixed))
 	if blocked {
 		vk.Class("qp3:path=blocked,lwork=" + lwNames[c.LwMode])
 	}
-	if k >= 2 && (blocked || c.PadA > 0 || c.Fixed > 0 || c.LwMode != lwQuery || isSingularClass(c.Class)) {
-		vk.NonTrivial("qp3", m, n, c.PadA, c.Class, c.Fixed, c.LwMode, c.Seed)
+	if rank > 0 && blocked {
+		vk.Class("qp3:lowrank+noise,path=blocked")
+	}
+	if k >= 2 && (blocked || c.PadA > 0 || c.Fixed > 0 || c.LwMode != lwQuery || isSingularClass(c.Class) || rank > 0) {
+		vk.NonTrivial("qp3", m, n, c.PadA, c.Class, c.Fixed, c.LwMode, c.LowRank, c.NoiseExp, c.Seed)
 	}
 	vk.Sample("qp3", c)
 
@@ -82,6 +106,8 @@ func checkQP3(c qp3Case) *vk.Failure {
 	if blocked && c.LwMode != lwMin {
 		modes = append(modes, lwMin)
 	}
+	// numerical rank revealed by each run (low rank + noise class)
+	revealed := make([]int, 0, 2)
 	for mi, mode := range modes {
 		lw := lworkFor(mode, c.LwK, minW, q)
 		w := newWork(lw, c.LwK%3)
@@ -144,6 +170,30 @@ func checkQP3(c qp3Case) *vk.Failure {
 				return vk.Failf("geqp3-diagonal-order", "%s: |R[%d,%d]|=%v > |R[%d,%d]|=%v among the free columns", call, j+1, j+1, d1, j, j, d0)
 			}
 		}
+		if rank > 0 && nfxd+rank < k {
+			// Rank revealed: number of free diagonal entries above the geometric
+			// mean of the signal level |R[nfxd,nfxd]| and the noise level
+			// sqrt(n)*||E||_F. For this class the two levels are at least four
+			// orders of magnitude apart and the R diagonal of every correct run
+			// (blocked or unblocked, any workspace) has exactly `rank` entries at
+			// the signal level; runs on the same input must agree.
+			thr := math.Sqrt(math.Abs(f.at(nfxd, nfxd)) * math.Sqrt(float64(n)) * noiseFro)
+			cnt := 0
+			for j := nfxd; j < k; j++ {
+				if math.Abs(f.at(j, j)) > thr {
+					cnt++
+				}
+			}
+			revealed = append(revealed, cnt)
+			if cnt == rank {
+				vk.Class("qp3:lowrank:revealed-rank=rank")
+			} else {
+				vk.Class("qp3:lowrank:revealed-rank!=rank")
+			}
+			if len(revealed) == 2 && revealed[0] != revealed[1] {
+				return vk.Failf("geqp3-rank-agreement", "%s: %d diagonal entries of R above %.3g, but %d in the run with lwork mode %s on the same input (rank %d + noise %.3g)", call, cnt, thr, revealed[0], lwNames[modes[0]], rank, noiseFro)
+			}
+		}
 		if mi == 0 {
 			f3 := f0.clone()
 			jp3 := newPints("jpvt", n, 1, 1)
@@ -177,7 +227,7 @@ func drawQP3(t *rapid.T) qp3Case {
 	} else {
 		m, n = drawShape(t, 70, 140)
 	}
-	return qp3Case{
+	c := qp3Case{
 		M: m, N: n, PadA: vk.Pad(t, "padA"),
 		Class:  rapid.IntRange(0, nGeneralClasses-1).Draw(t, "class"),
 		Fixed:  rapid.SampledFrom([]int{0, 0, 1, 2, 3}).Draw(t, "fixed"),
@@ -185,8 +235,42 @@ func drawQP3(t *rapid.T) qp3Case {
 		LwK:    rapid.IntRange(0, 100000).Draw(t, "lwk"),
 		Seed:   vk.SeedGen(t, "seed"),
 	}
+	if lr := vk.NewSplitMix(rapid.Uint64().Draw(t, "lowrank")); lr.Intn(7) == 0 {
+		c.LowRank, c.NoiseExp = 1+lr.Intn(40), 7+lr.Intn(6)
+	}
+	return c
+}
+
+// drawQP3LowRank: dedicated run for the blocked path on numerically
+// rank-deficient input (m, n in 130..200, mostly the queried workspace so that
+// full-width Dlaqps panels are used; the minimum-workspace run follows as the
+// second mode inside the check).
+func drawQP3LowRank(t *rapid.T) qp3Case {
+	sel := vk.NewSplitMix(rapid.Uint64().Draw(t, "sel"))
+	c := qp3Case{
+		M:        130 + sel.Intn(71),
+		N:        130 + sel.Intn(71),
+		PadA:     vk.Pad(t, "padA"),
+		Class:    clsGauss,
+		Fixed:    []int{0, 0, 0, 0, 1}[sel.Intn(5)],
+		LwMode:   []int{lwQuery, lwQuery, lwPlus, lwBetween}[sel.Intn(4)],
+		LwK:      rapid.IntRange(0, 100000).Draw(t, "lwk"),
+		LowRank:  1 + sel.Intn(40),
+		NoiseExp: 7 + sel.Intn(6),
+		Seed:     vk.SeedGen(t, "seed"),
+	}
+	if sel.Intn(6) == 0 {
+		c.N = 201 + sel.Intn(100) // wide
+	}
+	if c.LwMode == lwBetween {
+		// leading columns with a reduced workspace hit the open finding
+		// qp3/geqp3-leading-columns-reduced-lwork-panics, which the qp3 run covers
+		c.Fixed = 0
+	}
+	return c
 }
 
 func TestQP3(t *testing.T) {
 	vk.Run(t, "qp3", vk.Opts{Quick: 500, Thorough: 8000}, drawQP3, finish(checkQP3))
+	vk.Run(t, "qp3-lowrank", vk.Opts{Quick: 160, Thorough: 4000}, drawQP3LowRank, finish(checkQP3))
 }
